@@ -14,7 +14,22 @@ def seq_index(evs, pred, start=0):
 
 
 def check_row(tb):
-    """Return (row, problems[list of str]) for a TBPath."""
+    """Return (row, problems) for a TBPath: the row of the path's own valuation, and the problems of every completion."""
+    row0 = tb.row()
+    probs = []
+    rows = set()
+    for t in tb.completions():
+        r, ps = _check_row(t)
+        rows.add(r)
+        for x in ps:
+            if x not in probs:
+                probs.append(x if r == row0 or row0 == "unknown" else f"[as {r}: {t.valuation_str()}] {x}")
+    if row0 == "unknown":
+        row0 = "/".join(sorted(rows))
+    return row0, probs
+
+
+def _check_row(tb):
     evs = tb.events
     kinds = [e.kind for e in evs]
     row = tb.row()
